@@ -335,6 +335,7 @@ func renewRelease(r *Run) {
 // ---- DHCPv6: RapidSolicit
 type reply6Tpl struct {
 	kind     int // 0 ADVERTISE 1 REPLY 2 other type 3 wrong xid 4 undecodable 5 ADVERTISE lacking the server id
+	// 6 (second phase only): a late or duplicated ADVERTISE answering the SOLICIT, i.e. carrying the SOLICIT's transaction id
 	withIANA bool
 }
 
@@ -344,7 +345,7 @@ func lease6(r *Run) {
 		ph1 = append(ph1, reply6Tpl{kind: r.Pick(0, 0, 1, 2, 3, 4, 5), withIANA: r.Rng.Intn(4) != 0})
 	}
 	for k := r.Rng.Intn(4); k > 0; k-- {
-		ph2 = append(ph2, reply6Tpl{kind: r.Pick(1, 1, 0, 2, 3, 4), withIANA: true})
+		ph2 = append(ph2, reply6Tpl{kind: r.Pick(1, 1, 0, 2, 3, 4, 6, 6), withIANA: true})
 	}
 	var solXid, reqXid []byte
 	var w1, w2 [][]byte
@@ -356,8 +357,12 @@ func lease6(r *Run) {
 		c, _ := nclient6.NewWithConn(conn, labHW, nclient6.WithTimeout(100*time.Millisecond), nclient6.WithRetry(1))
 		mk := func(tp reply6Tpl, req *dhcpv6.Message) []byte {
 			mt := map[int]dhcpv6.MessageType{0: dhcpv6.MessageTypeAdvertise, 1: dhcpv6.MessageTypeReply, 2: dhcpv6.MessageTypeReconfigure,
-				3: dhcpv6.MessageTypeAdvertise, 4: dhcpv6.MessageTypeAdvertise, 5: dhcpv6.MessageTypeAdvertise}[tp.kind]
+				3: dhcpv6.MessageTypeAdvertise, 4: dhcpv6.MessageTypeAdvertise, 5: dhcpv6.MessageTypeAdvertise, 6: dhcpv6.MessageTypeAdvertise}[tp.kind]
 			m := &dhcpv6.Message{MessageType: mt, TransactionID: req.TransactionID}
+			if tp.kind == 6 && len(solXid) == 3 {
+				copy(m.TransactionID[:], solXid)
+				m.AddOption(&dhcpv6.OptionGeneric{OptionCode: 4001, OptionData: []byte("late answer to the SOLICIT")})
+			}
 			if cid := req.GetOneOption(dhcpv6.OptionClientID); cid != nil {
 				m.AddOption(cid)
 			}
@@ -448,6 +453,9 @@ func lease6(r *Run) {
 			}
 		} else {
 			rq, _ := dhcpv6.MessageFromBytes(reqWire)
+			if res.GetOneOption(dhcpv6.OptionCode(4001)) != nil {
+				r.Fail("c13-v6-solicit-answer-completes-request", cs, "a late ADVERTISE answering the SOLICIT was returned as the outcome of the REQUEST (REQUEST and SOLICIT share a transaction id)")
+			}
 			if !bytes.Equal(res.TransactionID[:], rq.TransactionID[:]) {
 				r.Fail("c13-v6-pairing", cs, "the returned message does not carry the REQUEST's transaction id")
 			}
